@@ -106,11 +106,12 @@ MoInt(e, a) ==
       [] e = "r1" -> IF a <= 200 THEN VL(RangeSeq(1, a)) ELSE UNDEF("range-size")
       [] e = "r0" -> IF a <= 200 THEN VL(RangeSeq(0, a - 1)) ELSE UNDEF("range-size")
       [] e = "bool" -> VI(IF a # 0 THEN 1 ELSE 0)
+      [] e = "not" -> VI(IF a = 0 THEN 1 ELSE 0)
       [] OTHER -> UNDEF("monad")
 
 RECURSIVE Mo(_, _)
 Mo(e, a) ==
-    IF IsI(a) THEN MoInt(e, a)
+    IF IsI(a) THEN MoInt(e, a.i)
     ELSE IF IsL(a) THEN VL([k \in 1..Len(a.l) |-> Mo(e, a.l[k])])
     ELSE UNDEF("monad-types")
 
@@ -138,17 +139,16 @@ SumList(s) == IF s = <<>> THEN VI(0) ELSE SumFrom(Head(s), Tail(s))
 
 AllInts(s) == \A k \in 1..Len(s) : IsI(s[k])
 
-(* insertion of x into an ascending sequence (stable: after equal keys) *)
-RECURSIVE InsertSorted(_, _, _)
-InsertSorted(s, x, key(_)) ==
+(* stable insertion sort of records [v, key] by integer key *)
+RECURSIVE InsertKeyed(_, _)
+InsertKeyed(s, x) ==
     IF s = <<>> THEN <<x>>
-    ELSE IF key(x) < key(Head(s)) THEN <<x>> \o s
-    ELSE <<Head(s)>> \o InsertSorted(Tail(s), x, key)
-RECURSIVE SortInts(_)
-SortInts(s) == IF s = <<>> THEN <<>>
-               ELSE LET r == SortInts(SubSeq(s, 1, Len(s) - 1))
-                        K(v) == v.i
-                    IN InsertSorted(r, s[Len(s)], K)
+    ELSE IF x.key < Head(s).key THEN <<x>> \o s
+    ELSE <<Head(s)>> \o InsertKeyed(Tail(s), x)
+RECURSIVE SortKeyed(_)
+SortKeyed(s) == IF s = <<>> THEN <<>> ELSE InsertKeyed(SortKeyed(SubSeq(s, 1, Len(s) - 1)), s[Len(s)])
+SortInts(s) == LET r == SortKeyed([k \in 1..Len(s) |-> [v |-> s[k], key |-> s[k].i]])
+               IN [k \in 1..Len(s) |-> r[k].v]
 
 Monad(e, a) ==
     CASE e = "inc" -> Mo("inc", a)
